@@ -29,6 +29,9 @@ type RunResult struct {
 	Violations []*Violation   `json:"violations,omitempty"`
 	EventHash  string         `json:"event_hash"`
 	Plan       *Plan          `json:"plan,omitempty"`
+	// the worker process that produced this run started at run ProcFrom and advanced by ProcStride
+	ProcFrom   int `json:"proc_from,omitempty"`
+	ProcStride int `json:"proc_stride,omitempty"`
 }
 
 func runSeed(seed int64, prop string, run int) int64 {
